@@ -9,11 +9,24 @@ Local Open Scope Z_scope.
 Lemma ustream_pb fault d l ls off :
   ustream fault (Pb d (l :: ls)) off =
   match ulink_sizes fault (usize fault) (node_meta d) 0 (l :: ls) with
-  | Err e => SErr e
+  | Err e => SErr (match seek_fault fault (node_meta d) off 0 (l :: ls) (usizes_prefix fault (usize fault) (node_meta d) 0 (l :: ls)) 0 with
+                   | Some e' => e'
+                   | None => e
+                   end)
   | Panic => SErr EOther
   | Ok sizes => go_links fault (ustream fault) off (l :: ls) sizes 0
   end.
 Proof. reflexivity. Qed.
+
+Lemma seek_fault_witness fault md off ls : forall i sizes at_ e,
+  seek_fault fault md off i ls sizes at_ = Some e -> exists t, In t (map l_target ls) /\ fault t = Some e.
+Proof.
+  induction ls as [|[n ts t] r IH]; intros i sizes at_ e H; [discriminate|].
+  destruct sizes as [|sz sr]; [discriminate|]. cbn [seek_fault] in H.
+  destruct (at_ + sz <=? off).
+  - destruct (IH (S i) sr (at_ + sz) e H) as (x & Hx & Hf). exists x. split; [right; exact Hx|exact Hf].
+  - destruct ((at_ <? off) && negb (measured md i t)); [|discriminate]. exists t. split; [left; reflexivity|exact H].
+Qed.
 
 Lemma go_links_ext fault (r1 r2 : blk -> Z -> strm) off ls : forall sizes at_,
   Forall (fun l => forall o, r1 (l_target l) o = r2 (l_target l) o) ls ->
